@@ -110,9 +110,12 @@ def is_good(res, unpack=False):
     return isinstance(d, np.ndarray) and d.shape == LE.GOOD.shape and np.array_equal(d, LE.GOOD)
 
 
-def set_gzip(world, gz):
+def set_gzip(world, gz, n_retries=None):
     for lc in world.loaders:
         lc.gzip = gz
+    if n_retries is not None:
+        # horizon: a correct loader makes at most n_retries + 1 download attempts; one more is allowed to be observed
+        world.max_net_calls = n_retries + 2
 
 
 def later_loads(home, cfg, key):
@@ -166,7 +169,7 @@ def check_faults(case):
             except StopIteration:
                 raise HarnessError("network script exhausted")
         w = LE.World([make_call(home, cfg)], home, answer_fn=ans, write_buffer=cfg.get("wbuf", 8192))
-        set_gzip(w, cfg["gzip"])
+        set_gzip(w, cfg["gzip"], cfg["n_retries"])
         w.run_to_end(0)
         lc = w.loaders[0]
         w.close()
@@ -178,6 +181,9 @@ def check_faults(case):
 
 def judge_single(lc, cfg, init, answers, home, key):
     fails = []
+    if lc.horizon_exceeded:
+        return [fail("retry-count", {"observed": "more than %d download attempts (horizon)" % lc.net_calls, "n_retries": cfg["n_retries"],
+                                     "answers": answers[:8]}, key)]
     exp = LM.predict(init != "empty", cfg["dim"], cfg["deia"], cfg["n_retries"], answers)
     res = lc.result
     if res[0] == "exc" and "HarnessError" in res[1]:
@@ -225,7 +231,7 @@ def faults_body(ctx):
             answers.append(a)
             return a
         w = LE.World([make_call(home, cfg)], home, answer_fn=ans, write_buffer=cfg.get("wbuf", 8192))
-        set_gzip(w, gz)
+        set_gzip(w, gz, nr)
         w.run_to_end(0)
         lc = w.loaders[0]
         w.close()
@@ -342,6 +348,7 @@ def _replay_events(home, cfgs, init, events):
     w = LE.World([make_call(home, c) for c in cfgs], home, answer_fn=ans, write_buffer=cfgs[0].get("wbuf", 8192))
     for lc, c in zip(w.loaders, cfgs):
         lc.gzip = c["gzip"]
+    w.max_net_calls = max(c["n_retries"] for c in cfgs) + 2
     for ev in events:
         if ev[0] == "run":
             w.step(ev[1])
@@ -390,6 +397,9 @@ def _state_invariants(w, cfgs, home, init, terminal):
     if st not in ("absent", "good"):
         fails.append(fail("cache-entry-corrupt", {"slot": st}, dict(key, slot=st[1])))
     for lc, c in zip(w.loaders, cfgs):
+        if lc.horizon_exceeded:
+            fails.append(fail("retry-count", {"loader": lc.tid, "observed": "more than %d download attempts (horizon)" % lc.net_calls}, key))
+            continue
         if lc.result is None or lc.result[0] == "killed":
             continue
         if lc.result[0] == "exc" and "HarnessError" in lc.result[1]:
